@@ -2455,7 +2455,7 @@ impl<'a> Model<'a> {
                     return Ok(());
                 }
                 // We try to parse as boolean
-                if let Ok(v) = value.to_lowercase().parse::<bool>() {
+                if let Some(v) = self.parse_boolean(&value) {
                     let worksheet = self.workbook.worksheet_mut(sheet)?;
                     worksheet.set_cell_with_boolean(row, column, v, new_style_index)?;
                     return Ok(());
@@ -2478,6 +2478,19 @@ impl<'a> Model<'a> {
             }
         }
         Ok(())
+    }
+
+    /// Reads `value` as a boolean: by the names of the active language, which are the ones a
+    /// boolean cell is displayed with, or by the English names
+    fn parse_boolean(&self, value: &str) -> Option<bool> {
+        let upper = value.to_uppercase();
+        if upper == self.language.booleans.r#true {
+            return Some(true);
+        }
+        if upper == self.language.booleans.r#false {
+            return Some(false);
+        }
+        value.to_lowercase().parse::<bool>().ok()
     }
 
     /// Sets an array formula in an area (CSE formula)
